@@ -561,6 +561,10 @@ class FuncEmitter:
                 return 'LL2C_LOAD(u%d, %s)' % (n, pe)
             if n < 8:
                 return '((u8)(LL2C_LOAD(u8, %s) & %s))' % (pe, ulit(mask(n), n))
+            if n % 8 == 0 and n <= 64:
+                # odd byte width (i24, i48, ...: memcpy of 3 or 6 bytes): little-endian byte assembly
+                w = cwidth(n)
+                return '((u%d)(%s))' % (w, ' | '.join('((u%d)LL2C_LOAD(u8, (%s + %d)) << %d)' % (w, p, off + i, 8 * i) for i in range(n // 8)))
             raise Unsupported('load of i%d' % n)
         if k in ('float', 'double'):
             return 'LL2C_LOAD(%s, %s)' % (k, pe)
@@ -586,6 +590,10 @@ class FuncEmitter:
                 return
             if n < 8:
                 self.out.append('LL2C_STORE(u8, %s, %s);' % (pe, v))
+                return
+            if n % 8 == 0 and n <= 64:
+                for i in range(n // 8):
+                    self.out.append('LL2C_STORE(u8, (%s + %d), (u8)(%s >> %d));' % (p, off + i, v, 8 * i))
                 return
             raise Unsupported('store of i%d' % n)
         if k in ('float', 'double'):
@@ -1239,7 +1247,16 @@ class FuncEmitter:
             self.out.append('%s = %s;' % (r, A[0]))
             self.out.append('%s.e[0] = (%s.e[0] %s %s.e[0]) ? %s.e[0] : %s.e[0];' % (r, A[0], c, A[1], A[0], A[1]))
             return
+        if short.endswith('.ss') and len(args) > 1 and args[1][1][0] == 'vec':
+            # scalar (.ss) forms read lane 0 of the second source only; clang folds the other lanes of a constant operand to poison:
+            # build that operand from its lane 0 alone so that the never-read poison lanes do not flag the T-check input as skipped
+            vt = self.mod.resolve(args[1][0])
+            (et0, ev0) = args[1][1][1][0]
+            A = list(A)
+            A[1] = '((%s){{%s}})' % (self.ctx.ctype(vt), ', '.join([self.val(ev0, et0)] + [self.undef(self.mod.resolve(vt[2]), 'Q')] * (vt[1] - 1)))
         if short in ('sse.cmp.ss', 'sse.cmp.ps'):
+            if imm(2) > 7:
+                raise Unsupported('AVX comparison predicate %d of %s' % (imm(2), name))
             pred = imm(2) & 7
             tbl = {0: '(X == Y)', 1: '(X < Y)', 2: '(X <= Y)', 3: '(X != X || Y != Y)', 4: '(X != Y)', 5: '(!(X < Y))', 6: '(!(X <= Y))', 7: '(X == X && Y == Y)'}
             lanes = [0] if short.endswith('.ss') else [0, 1, 2, 3]
